@@ -470,7 +470,8 @@ def c05_length(R):
     ab = tree.func(Z3, "BackendZ3._abstract_internal")
     # with the single-assignment locals resolved: the generic node is built with length=<L>, and on the
     # bit-vector-sort path <L> is the size of the Z3 sort of the very term being abstracted
-    abr = util.resolve_locals(ab)
+    # only the sort local needs resolving (resolving everything in this 150-line function is needlessly expensive)
+    abr = util.inline_aliases(ab, lambda v: isinstance(v, ast.Call) and dotted(v.func) == "z3.Z3_get_sort")
     builds = [
         c
         for c in ast.walk(abr)
